@@ -45,7 +45,7 @@ inductive Expr
   | bin (op : BinOp) (t : Ty) (a b : Expr)     -- `t`: type of the (converted) operands; for shifts of the left one
   | un (op : UnOp) (t : Ty) (a : Expr)
   | cond (c a b : Expr)                        -- `c ? a : b`
-  deriving Repr
+  deriving Repr, DecidableEq
 
 inductive Stmt
   | skip
@@ -59,7 +59,7 @@ inductive Stmt
   | fill (d v n : Expr)                        -- `memset(d, v, n)`
   | call (dst : Option Nat) (f : String) (args : List Expr)
   | ret (e : Option Expr)
-  deriving Repr
+  deriving Repr, DecidableEq
 
 structure Fn where
   name    : String
